@@ -227,7 +227,7 @@ def check(case) -> Outcome:
                         conds = [cmp_, build_cond(case["sub_cond"], [None, x])] + ([build_cond(extra, [l])] if extra is not None else [])
                         q = an(entity(l, *conds))
                 abandon(q, case.get("abandon_first", 0))
-                return [(r,) for r in q.evaluate()]
+                return _eval3(q, lambda r: (r,))
         elif pos == "operand_attr":
             sub_side_l = case["sub_side"] == "left"
             cmp_ast = ["cmp", case["op"], ["attr", ["var", 1], case["sub_attr"]], case["other"]] if sub_side_l else \
@@ -299,7 +299,7 @@ def check(case) -> Outcome:
                     else:
                         q = an(set_of([V[0], V[1]], build_cond(case["c0"], V), build_cond(case["c1"], V)))
                 abandon(q, case.get("abandon_first", 0))
-                return [(r[V[0]], r[V[1]]) for r in q.evaluate()]
+                return _eval3(q, lambda r: (r[V[0]], r[V[1]]))
     from entity_query_language.cache_data import enable_caching, disable_caching
     results = {}
     for name, v in list(variants.items()) + [(n + "_uncached", v) for n, v in variants.items()]:
@@ -322,6 +322,16 @@ def check(case) -> Outcome:
             return fail(name + "_" + bad[0], f"{name} query: {bad[1]}; the {other} query gives {show_rows(results[other])}",
                         nontrivial=nontrivial, classes=classes, features=feats + [name])
     return Outcome(True, nontrivial=nontrivial, classes=classes, features=feats)
+
+
+def _eval3(q, project):
+    """The same query object evaluated three times: every evaluation must give the row set of the first one."""
+    first = [project(r) for r in q.evaluate()]
+    for n in (2, 3):
+        again = [project(r) for r in q.evaluate()]
+        if {ident(r) for r in again} != {ident(r) for r in first}:
+            raise _Reevaluation(f"evaluation {n} gave {show_rows(again)}, the first one {show_rows(first)}")
+    return first
 
 
 def _mk(objs, idxs):
